@@ -9,7 +9,7 @@ ID=$1; shift; CHECKS="${@:-$ID}"
 # sub-agent worked and under which name the change is kept: /verif/seeded/<ID><SUFFIX>
 SID=$ID${SUFFIX:-}
 W=${SEEDROOT:-/tmp/seed}/$ID; O=${SEEDROOT:-/tmp/seed}/$ID.out; V=/verif
-export GOFLAGS=-mod=mod GOPROXY=off; unset GOSUMDB
+export GOFLAGS=-mod=mod GOPROXY=off VERIF_NO_EVIDENCE=1; unset GOSUMDB
 if [ ! -f $O/patch.diff ] && [ -f $V/seeded/$SID/patch.diff ]; then
   # the sub-agent's worktree is gone: re-verify from what was kept under /verif/seeded
   O=$V/seeded/$SID
